@@ -177,3 +177,16 @@ Proof.
   exact (driver_all_iterations_complete Good good_push_checked good_quiescence_total good_depth1_total
            g t limit tableless it).
 Qed.
+
+(* ---- C10: a dead root is reported as such ---------------------------------------------------------------------- *)
+
+Theorem top_dead_root g t limit stop_at tableless :
+  Good g -> SoundTable t -> checked_moves g = [] ->
+  d_move (driver g t limit stop_at tableless) = None
+  \/ exists m, d_move (driver g t limit stop_at tableless) = Some m /\ collision_witness Good g m.
+Proof.
+  intros Hg Ht He. destruct (d_move (driver g t limit stop_at tableless)) as [m|] eqn:E; [right | left; reflexivity].
+  exists m. split; [reflexivity|].
+  destruct (top_driver_move g t limit stop_at tableless m Hg Ht E) as [Hin | Hc]; [|exact Hc].
+  rewrite He in Hin. destruct Hin.
+Qed.
